@@ -25,8 +25,48 @@ def gen(rng, tier="quick", **force):
     # real non-symmetric H_0 with complex-conjugate eigenvalue pairs that are split between the explicit and
     # the implicit subspace (real dtype of H_0, complex eigenvectors)
     spec["real_pairs"] = bool((not spec["hermitian"]) and (not spec["complex"]) and rng.random() < 0.5)
+    # eigenvectors of decoupled subsystems (sparse, disjoint supports) instead of dense random ones
+    spec["structured"] = bool((not spec["real_pairs"]) and rng.random() < 0.4)
     spec.update(force)
     return spec
+
+
+def structured_basis(rng, N, cplx, hermitian, mix=0.3):
+    """Eigenbasis of a direct sum of small decoupled subsystems (sizes 1..4) in a permuted site basis, with the
+    eigenvector columns shuffled: degenerate levels then typically consist of a localised and a more extended
+    state with disjoint supports (identical decoupled dimers, a bound state next to a band, ...)."""
+    def rnd(shape):
+        a = rng.normal(size=shape)
+        return a + 1j * rng.normal(size=shape) if cplx else a
+
+    sizes, left = [], N
+    while left > 0:
+        s_ = int(min(left, rng.integers(1, 5)))
+        sizes.append(s_)
+        left -= s_
+    R = np.zeros((N, N), complex if cplx else float)
+    off = 0
+    for s_ in sizes:
+        Qb = np.linalg.qr(rnd((s_, s_)))[0]
+        if rng.random() < 0.5 and (cplx or s_ in (1, 2, 4)):
+            # translation-invariant ring / symmetric dimer: every eigenvector spread evenly over the subsystem
+            if cplx:
+                Qb = np.exp(2j * np.pi * np.outer(np.arange(s_), np.arange(s_)) / s_) / np.sqrt(s_)
+                Qb = Qb * np.exp(1j * rng.uniform(0, 2 * np.pi, size=s_))[None, :]
+            else:
+                h2 = np.array([[1.0, 1.0], [1.0, -1.0]])
+                Qb = {1: np.eye(1), 2: h2, 4: np.kron(h2, h2)}[s_] / np.sqrt(s_) * rng.choice([-1.0, 1.0], size=s_)[None, :]
+        if not hermitian:
+            Qb = Qb @ (np.eye(s_) + mix * np.triu(rnd((s_, s_)), 1))
+        R[off:off + s_, off:off + s_] = Qb
+        off += s_
+    # columns round-robin over the subsystems: neighbouring columns (the degenerate explicit levels) belong to
+    # different subsystems, i.e. have disjoint supports and in general different localisation
+    owner = np.repeat(np.arange(len(sizes)), sizes)
+    rank = np.concatenate([np.arange(s_) for s_ in sizes])
+    cols = np.lexsort((rng.permutation(len(sizes))[owner], rank))
+    R = R[rng.permutation(N)][:, cols]
+    return R
 
 
 def build(spec):
@@ -84,7 +124,7 @@ def build(spec):
         full = expl + [(np.array(R[:, k:]), np.array(L[:, k:]))]
         return dict(spec=spec, N=N, k=k, sizes=sizes, E=E, R=R, L=L, H0=H0, terms=terms, expl=expl, full=full, hermitian=False)
     if hermitian:
-        Q = np.linalg.qr(rnd((N, N)))[0]
+        Q = structured_basis(rng, N, cplx, True) if spec.get("structured") else np.linalg.qr(rnd((N, N)))[0]
         R, L = Q, Q
         H0 = Q @ np.diag(E.real) @ Q.conj().T
         H0 = (H0 + H0.conj().T) / 2
@@ -93,9 +133,12 @@ def build(spec):
             A = rnd((N, N))
             terms.append((A + A.conj().T) / 2)
     else:
-        Q = np.linalg.qr(rnd((N, N)))[0]
-        T = np.triu(rnd((N, N)), 1) * 0.3
-        R = Q @ (np.eye(N) + T)
+        if spec.get("structured"):
+            R = structured_basis(rng, N, cplx, False)
+        else:
+            Q = np.linalg.qr(rnd((N, N)))[0]
+            T = np.triu(rnd((N, N)), 1) * 0.3
+            R = Q @ (np.eye(N) + T)
         L = np.linalg.inv(R).conj().T
         H0 = R @ np.diag(E) @ L.conj().T
         terms = [rnd((N, N)) for _ in range(spec["n_par"])]
